@@ -395,7 +395,10 @@ def replay(rp):
     if rp.get('kind') == 'wasi-par':
         # an interleaving-dependent failure: the case is repeated until it shows (at most 20 times)
         for _ in range(20):
-            if run_par(rp['case']) is not None:
+            try:
+                if run_par(rp['case']) is not None:
+                    return True
+            except AgentDied:
                 return True
         return False
     if rp.get('kind') == 'fz':
